@@ -101,8 +101,18 @@ def filter_truthiness(rep, if_cases):
         it["fsrc"] = src
         jobs.append((["-s", "-c", src], cap))
     results = run_many(jobs)
+    # output not suppressed: a falsey value never selects the packet - neither as the pattern of a filter without
+    # an action (where only `true` selects; what a truthy non-boolean does there is not documented) nor in front
+    # of an action
+    sel_jobs = []
+    for it in items:
+        text = expr_text(it["prog"][1]["e"]["as"][1]["c"])
+        sel_jobs.append((["-c", "@ %s\n" % text], cap))
+        sel_jobs.append((["-c", "@ %s { let t = 1; }\n" % text], cap))
+    sel_all = run_many(sel_jobs)
+    sel_results = [(sel_all[2 * k], sel_all[2 * k + 1]) for k in range(len(items))]
     n = 0
-    for it, r in zip(items, results):
+    for it, r, rs in zip(items, results, sel_results):
         v = verdicts[it["id"]]
         exp = v.get("exp")
         if not exp or exp.get("how") != "ok":
@@ -114,4 +124,16 @@ def filter_truthiness(rep, if_cases):
         if r["how"] != "exit" or hit != truthy:
             rep.disagree("truth filter-pattern %s exp=%s got=%s" % (it["ta"], truthy, hit if r["how"] == "exit" else r["how"]),
                          {"src": it["fsrc"], "stderr": r["err"].decode("utf8", "replace")[:500], "how": r["how"]})
+        for with_action, r2 in ((False, rs[0]), (True, rs[1])):
+            rep.cov["evaluations"] += 1
+            try:
+                written = len(pcapfmt.parse_pcap(r2["out"])[1]) if r2["out"] else 0
+            except Exception:
+                written = -1
+            allowed = {0} if (not truthy or with_action) else ({1} if it["ta"] == "bool:true" else {0, 1})
+            if r2["how"] != "exit" or written not in allowed:
+                rep.disagree("truth filter-selects %s %s exp=%s packets-written=%s" % (
+                    "with-action" if with_action else "pattern-only", it["ta"], truthy, written if r2["how"] == "exit" else r2["how"]),
+                    {"src": sel_jobs[2 * items.index(it) + (1 if with_action else 0)][0][1],
+                     "stderr": r2["err"].decode("utf8", "replace")[:300], "how": r2["how"], "stdout_bytes": len(r2["out"])})
     return n
